@@ -117,6 +117,14 @@ INTERACTIVE = [
     ("i-command-name-call", ["function run(x) return integer is", "begin", "return x * 2;", "end;", 'print "OUT " run(4);', "run(4);", 'print "after";']),
     ("i-command-name-call-list", ["function list(x) return integer is", "begin", "return x;", "end;", "list(3);", "zz = list(4);", "print zz;"]),
     ("i-command-name-call-help", ["function help(x) return integer is", "begin", "return x;", "end;", "help(3);", "print help(5);"]),
+] + [
+    # every console command name as a variable, with every statement form that can begin with a variable
+    ("i-command-word-%s-%s" % (_w, _f), _lines) for _w in ("exit", "clear", "list", "load", "save", "run", "desc", "dump", "help", "copyright", "license")
+    for _f, _lines in (("assign", ["%s = 3;" % _w, "print %s + 1;" % _w]), ("assign2", ["%s := 4;" % _w, "print %s + 1;" % _w]),
+                       ("declare", ["%s:integer;" % _w, "print isnull(%s);" % _w]), ("declare-spaced", ["%s : string;" % _w, "print typeof(%s);" % _w]),
+                       ("member", ['zq = "s"; %s = zq;' % _w, '%s.concat("x");' % _w, "print %s;" % _w]),
+                       ("spaced-assign", ["%s   =   5;" % _w, "print %s;" % _w]), ("chained", ["%s = 1, print %s;" % (_w, _w)]))
+] + [
     ("i-begin-error", ["begin", "for i in 1 to 2 loop", "raise inner;", "end loop;", "exception when others then", 'print "caught";', "end;", "for k in 1 to 2 loop", "print k;", "end loop;"]),
 ]
 
